@@ -5,6 +5,7 @@ package main
 import (
 	"encoding/json"
 	"sort"
+	"strings"
 
 	"github.com/Azbesciak/RealDecisionMaker/lib/model"
 )
@@ -113,7 +114,39 @@ func c04ListingOrder(o *Out, r *Rng, c int) {
 		}
 	}
 	q.Body["biases"] = []interface{}{}
-	if r.chance(0.35) {
+	if r.chance(0.06) {
+		// criterion ids are free text: an id that reads like two other ids written one after the other ("top speed"
+		// next to "top" and "speed") is a third criterion, whatever order the alternatives are listed in
+		ids := []string{"top", "speed", "top speed"}
+		crit := []interface{}{}
+		for _, id := range ids {
+			crit = append(crit, J{"id": id, "type": "gain"})
+		}
+		w := J{}
+		for mask := 1; mask < 8; mask++ {
+			var sub []string
+			for j, id := range ids {
+				if mask&(1<<uint(j)) != 0 {
+					sub = append(sub, id)
+				}
+			}
+			w[strings.Join(sub, ",")] = float64(r.Intn(9)) / 8
+		}
+		var known []interface{}
+		var chosen []string
+		for i, na := 0, r.rangeInt(2, 5); i < na; i++ {
+			vals := J{}
+			for _, id := range ids {
+				vals[id] = float64(r.Intn(17)) / 2
+			}
+			known = append(known, J{"id": "a" + itoa(i), "criteria": vals})
+			chosen = append(chosen, "a"+itoa(i))
+		}
+		q.Method = "choquetIntegral"
+		q.Body = J{"preferenceFunction": "choquetIntegral", "criteria": crit, "knownAlternatives": known, "choseToMake": chosen,
+			"methodParameters": J{"weights": w}, "biases": []interface{}{}}
+		o.count("listing-order:ids-with-blanks")
+	} else if r.chance(0.35) {
 		// inline anchoring reads the anchoring alternatives in the order the PROPS list them, the reference point
 		// per criterion and the value ranges are order-free, every alternative is shifted on its own
 		var aa []interface{}
